@@ -90,6 +90,11 @@ def int? : Body R → Option Int
   | .int i => some i
   | _ => none
 
+/-- the interned name carried by a body -/
+def name? : Body R → Option Nat
+  | .name n => some n
+  | _ => none
+
 /-- the members of an object whose key is a name and whose value is an integer:
 `{"VCPU": 2, "consumer_count": 1}` ↦ `[(VCPU, 2)]` -/
 def namedInts (b : Body R) : List (Nat × Int) :=
@@ -330,15 +335,18 @@ structure UsageQuery where
   extra : Bool := false        -- a query parameter outside the schema
 deriving Inhabited
 
+/-- the WHERE clause of the usage queries, on the consumer: project, optionally user, and a
+condition on the consumer's type -/
+def usageMatch (project : Nat) (user : Option Nat) (tp : Option Nat → Bool) (c : ConsRow) : Bool :=
+  c.project == project && (match user with | some u => c.user == u | none => true) && tp c.ctype
+
 /-- the join of the usage queries: allocations ⋈ consumers, restricted to a project, optionally a
 user, and a condition on the consumer's type -/
 def totalRows (db : DB R) (project : Nat) (user : Option Nat) (tp : Option Nat → Bool) :
     List (AllocRow × ConsRow) :=
   db.allocs.filterMap (fun a =>
     match db.consByUuid a.consumer with
-    | some c =>
-      if c.project == project && (match user with | some u => c.user == u | none => true) && tp c.ctype
-      then some (a, c) else none
+    | some c => if usageMatch project user tp c then some (a, c) else none
     | none => none)
 
 /-- `SUM(used) GROUP BY resource_class_id` -/
